@@ -1,4 +1,5 @@
 """C07 driver: solve_exact_cover under several configurations on one input -> trace for DlxTrace.tla."""
+from drivers.labels import cont_mode, seq1, seq2
 import copy
 import random
 
@@ -27,7 +28,8 @@ def run_dlx(case):
             if names is not None:
                 kw["columns"] = names
             if secondary or case.get("pass_empty_secondary"):
-                kw["secondary"] = secondary
+                sm = cont_mode(case)         # any iterable of names: list, set, one-shot generator
+                kw["secondary"] = secondary if sm == 0 else (set(secondary) if sm == 1 else (x for x in list(secondary)))
             arg = before if not case.get("tuples") else tuple(tuple(r) for r in before)
             r = solve_exact_cover(arg, **kw)
             sol = r.solution
